@@ -272,7 +272,6 @@ func c10SharedOne(r *mon.Run, cs c10SharedCase) {
 	r.Nontrivial("shared", projectKey(pt), fmt.Sprint(cs.Drop, cs.Fail, cs.OK, cs.Standalone, cs.Between, cs.Dup, cs.Rebind))
 }
 
-
 // c10SharedRebind: one name bound to another schema. All roots share every type object but one: under that name
 // every second root registers an object with another text. Each root must answer like fresh objects with its
 // binding. (Only for projects without allOf: inheriting types are extended in place by design.)
